@@ -127,13 +127,16 @@ func (o *Origin) handle(oc *OConn) {
 	}()
 	var buf []byte
 	tmp := make([]byte, 64<<10)
+	need := 0
 	for {
 		// parse as many complete requests as the buffer holds
-		for len(buf) > 0 {
+		for len(buf) > 0 && len(buf) >= need {
 			m, n, st := ParseRequest(buf)
 			if st == PNeedMore {
+				need = m.NeedTotal
 				break
 			}
+			need = 0
 			if st == PBad {
 				oc.mu.Lock()
 				oc.Bad = m.Err
@@ -333,9 +336,11 @@ func (s *Stream) fill(deadline time.Time) error {
 // message with BodyComplete=false and st==PNeedMore; on timeout the error is ErrTimeout.
 func (s *Stream) ReadResponse(method string, wait time.Duration) (*Msg, PStatus, error) {
 	deadline := time.Now().Add(wait)
+	need := 0
 	for {
-		if len(s.buf) > 0 || s.eof {
+		if (len(s.buf) > 0 && len(s.buf) >= need) || s.eof {
 			m, n, st := ParseResponse(s.buf, method, s.eof)
+			need = m.NeedTotal
 			if st == POK {
 				// skip interim 1xx (except 101)
 				s.buf = s.buf[n:]
@@ -358,7 +363,8 @@ func (s *Stream) ReadResponse(method string, wait time.Duration) (*Msg, PStatus,
 				}
 				continue
 			}
-			m, _, _ := ParseResponse(s.buf, method, false)
+			m, _, _ := ParseResponse(s.buf, method, true)
+			m.BodyComplete = false
 			return m, PNeedMore, err
 		}
 	}
